@@ -14,7 +14,7 @@ run alone (sequentially) from the initial memory.
 The second half of the file is the write-set table of kyber's read-only method set: for each
 (implementation, method) the class of locations it writes. `pure`/`fresh` entries instantiate the
 theorem; `sharedWrite` entries are methods that write memory reachable from a shared operand (they are
-outside the theorem's hypothesis, and the race detector is expected to report them).
+outside the theorem's hypothesis, and the race detector is expected to report them: C20 findings).
 Core-only: the driver prints the table for the harness (`effects table`).
 -/
 namespace Kyber.Effects
@@ -143,8 +143,16 @@ def table : List Entry :=
     e "suite" "RandomStream.XORKeyStream" .fresh "util/random: stateless stream, fresh randomness per call",
     e "suite" "Hash" .fresh,
     e "suite" "XOF" .fresh,
-    e "pairing" "Pair" .fresh "operands converted / cloned before the Miller loop",
-    e "pairing" "ValidatePairing" .fresh,
+    e "pairing-bn256" "Pair" .fresh "operands cloned before MakeAffine",
+    e "pairing-bn256" "ValidatePairing" .fresh,
+    e "pairing-bn254" "Pair" .fresh,
+    e "pairing-bn254" "ValidatePairing" .fresh,
+    e "pairing-kilic" "Pair" .sharedWrite "Engine.AddPair converts the operands to affine in place; Pair passes the shared points themselves",
+    e "pairing-kilic" "ValidatePairing" .fresh "clones its operands (kilic/bls12-381 issue 37)",
+    e "pairing-circl" "Pair" .fresh,
+    e "pairing-circl" "ValidatePairing" .fresh,
+    e "pairing-gnark" "Pair" .fresh,
+    e "pairing-gnark" "ValidatePairing" .fresh,
     e "schnorr" "Verify" .fresh "shared public key only marshalled",
     e "eddsa" "Verify" .fresh,
     e "bls" "Verify" .fresh,
